@@ -1,12 +1,648 @@
-//! Extension module (Tier A): owner fills in. Output: coq/gen/SyntaxFacts.v
+//! Extension module (Tier A) for C15. Output: coq/gen/SyntaxFacts.v
 //! Contract: return (text of the .v file, report lines). Each report line is one JSON object
 //! {"item":"SyntaxFacts.<name>","file":"<rust file>","ok":true|false[,"error":"..."]}.
 //! Fail closed: when a site is not recognised, OMIT the Gallina definition (so dependent proofs stop
 //! compiling) and push an ok:false report line.
+//!
+//! Items (all read from the Rust source on every run):
+//!   printer_escape     egglog-ast/src/generic_ast_helpers.rs  `Display for Literal`, the
+//!                      `Literal::String` arm: which characters are escaped and to what text;
+//!                      plus the `.0` suffix rule of the `Literal::Float` arm and the text of `Unit`
+//!   lexer_string       src/ast/parse.rs `SexpParser::next`: closing quote, escape introducer,
+//!                      the `(in_escape, c)` unescape table, the delimiters of a `Token::Other`,
+//!                      the single-character tokens
+//!   lexer_classify     src/ast/parse.rs `sexp`, `Token::Other` arm: the ORDER in which a token is
+//!                      classified (true / false / i64 / NaN / inf / -inf / finite f64 / atom)
+//!   command_heads      `Parser::parse_command`: heads of `match head.as_str()`, in source order, each
+//!                      with the accepted tail lengths (slice patterns of `match tail`) when the arm
+//!                      is such a match; the fallback arm
+//!   action_heads       same for `Parser::parse_action`
+//!   schedule_heads     same for `Parser::parse_schedule`
+//!   fact_heads         same for `Parser::parse_fact`
+use quote::ToTokens;
+use std::path::Path;
+use syn::visit::Visit;
 
-pub fn generate(_repo: &std::path::Path) -> (String, Vec<String>) {
-    (
-        "(* GENERATED by /verif/translator (x_syntax.rs): nothing extracted yet *)\n".to_string(),
-        Vec::new(),
-    )
+const HELPERS: &str = "egglog-ast/src/generic_ast_helpers.rs";
+const PARSE: &str = "src/ast/parse.rs";
+
+fn toks<T: ToTokens>(t: &T) -> String {
+    t.to_token_stream().to_string()
+}
+
+fn nlist(s: &str) -> String {
+    let v: Vec<String> = s.chars().map(|c| (c as u32).to_string()).collect();
+    format!("[{}]", v.join("; "))
+}
+
+fn comment_safe(s: &str) -> String {
+    s.chars()
+        .map(|c| if c.is_ascii_graphic() && c != '*' && c != '(' && c != ')' && c != '"' { c } else { '?' })
+        .collect()
+}
+
+fn parse(repo: &Path, rel: &str) -> Result<syn::File, String> {
+    let src = std::fs::read_to_string(repo.join(rel)).map_err(|e| format!("{rel}: {e}"))?;
+    syn::parse_file(&src).map_err(|e| format!("{rel}: {e}"))
+}
+
+/// all functions (free or in impls) called `name`
+fn find_fns(file: &syn::File, name: &str) -> Vec<syn::Block> {
+    struct F<'n> {
+        name: &'n str,
+        found: Vec<syn::Block>,
+    }
+    impl<'ast, 'n> Visit<'ast> for F<'n> {
+        fn visit_impl_item_fn(&mut self, f: &'ast syn::ImplItemFn) {
+            if f.sig.ident == self.name {
+                self.found.push(f.block.clone());
+            }
+            syn::visit::visit_impl_item_fn(self, f);
+        }
+        fn visit_item_fn(&mut self, f: &'ast syn::ItemFn) {
+            if f.sig.ident == self.name {
+                self.found.push((*f.block).clone());
+            }
+            syn::visit::visit_item_fn(self, f);
+        }
+        fn visit_item_mod(&mut self, m: &'ast syn::ItemMod) {
+            // skip #[cfg(test)] modules
+            if m.attrs.iter().any(|a| toks(a).contains("test")) {
+                return;
+            }
+            syn::visit::visit_item_mod(self, m);
+        }
+    }
+    let mut v = F { name, found: vec![] };
+    v.visit_file(file);
+    v.found
+}
+
+fn the_fn(file: &syn::File, name: &str) -> Result<syn::Block, String> {
+    let mut v = find_fns(file, name);
+    if v.len() != 1 {
+        return Err(format!("expected exactly one fn {name}, found {}", v.len()));
+    }
+    Ok(v.remove(0))
+}
+
+/// every `match` expression inside a block, in source order (outer before inner)
+fn matches_in<T: ToTokens>(node: &T) -> Vec<syn::ExprMatch> {
+    struct M(Vec<syn::ExprMatch>);
+    impl<'ast> Visit<'ast> for M {
+        fn visit_expr_match(&mut self, m: &'ast syn::ExprMatch) {
+            self.0.push(m.clone());
+            syn::visit::visit_expr_match(self, m);
+        }
+    }
+    let mut v = M(vec![]);
+    let ts = node.to_token_stream();
+    if let Ok(b) = syn::parse2::<syn::Block>(ts.clone()) {
+        v.visit_block(&b);
+    } else if let Ok(e) = syn::parse2::<syn::Expr>(ts) {
+        v.visit_expr(&e);
+    }
+    v.0
+}
+
+fn char_pat(p: &syn::Pat) -> Option<char> {
+    if let syn::Pat::Lit(l) = p {
+        if let syn::Lit::Char(c) = &l.lit {
+            return Some(c.value());
+        }
+    }
+    None
+}
+
+fn char_expr(e: &syn::Expr) -> Option<char> {
+    if let syn::Expr::Lit(l) = e {
+        if let syn::Lit::Char(c) = &l.lit {
+            return Some(c.value());
+        }
+    }
+    None
+}
+
+/// `write!(f, "<lit>")?` -> the format string
+fn write_lit(e: &syn::Expr) -> Option<String> {
+    let inner = match e {
+        syn::Expr::Try(t) => &*t.expr,
+        other => other,
+    };
+    let syn::Expr::Macro(m) = inner else { return None };
+    if !m.mac.path.is_ident("write") {
+        return None;
+    }
+    let args = m
+        .mac
+        .parse_body_with(syn::punctuated::Punctuated::<syn::Expr, syn::Token![,]>::parse_terminated)
+        .ok()?;
+    if args.len() != 2 {
+        return None;
+    }
+    if let syn::Expr::Lit(l) = &args[1] {
+        if let syn::Lit::Str(s) = &l.lit {
+            return Some(s.value());
+        }
+    }
+    None
+}
+
+// ------------------------------------------------------------------------------------------------
+// printer
+// ------------------------------------------------------------------------------------------------
+fn printer_escape(repo: &Path) -> Result<String, String> {
+    let file = parse(repo, HELPERS)?;
+    // impl Display for Literal
+    let mut body = None;
+    for it in &file.items {
+        if let syn::Item::Impl(im) = it {
+            let tr = im.trait_.as_ref().map(|t| toks(&t.1)).unwrap_or_default();
+            if tr.ends_with("Display") && toks(&*im.self_ty) == "Literal" {
+                for ii in &im.items {
+                    if let syn::ImplItem::Fn(f) = ii {
+                        if f.sig.ident == "fmt" {
+                            if body.is_some() {
+                                return Err("two Display for Literal".into());
+                            }
+                            body = Some(f.block.clone());
+                        }
+                    }
+                }
+            }
+        }
+    }
+    let body = body.ok_or("impl Display for Literal not found")?;
+    let ms = matches_in(&body);
+    let top = ms.first().ok_or("no match in Display for Literal")?;
+    let mut variants = vec![];
+    let mut out = String::new();
+    for arm in &top.arms {
+        let p = toks(&arm.pat).replace(' ', "");
+        variants.push(p.clone());
+        if p.starts_with("Literal::String(") {
+            // for c in s.chars() { match c { .. } }
+            let inner = matches_in(&arm.body);
+            let m = inner
+                .iter()
+                .find(|m| toks(&*m.expr) == "c")
+                .ok_or("Literal::String arm: `match c` not found")?;
+            if !toks(&arm.body).contains("s . chars ()") {
+                return Err("Literal::String arm does not iterate over s.chars()".into());
+            }
+            let mut table = vec![];
+            let mut default_verbatim = false;
+            for a in &m.arms {
+                if a.guard.is_some() {
+                    return Err("guard in string-escape match".into());
+                }
+                if let Some(c) = char_pat(&a.pat) {
+                    let s = write_lit(&a.body).ok_or("escape arm is not write!(f, \"lit\")?")?;
+                    if s.contains('{') {
+                        return Err("escape arm uses a format argument".into());
+                    }
+                    table.push(format!("({}, {})", c as u32, nlist(&s)));
+                } else if let syn::Pat::Ident(id) = &a.pat {
+                    let s = write_lit(&a.body).ok_or("default escape arm is not a write!")?;
+                    if s != format!("{{{}}}", id.ident) {
+                        return Err(format!("default escape arm prints {s:?}, not the character"));
+                    }
+                    default_verbatim = true;
+                } else {
+                    return Err(format!("unrecognised escape pattern {}", toks(&a.pat)));
+                }
+            }
+            if !default_verbatim {
+                return Err("no verbatim default arm in string escaping".into());
+            }
+            // opening and closing quote: the write!s outside the loop
+            let arm_t = toks(&arm.body);
+            if arm_t.matches("write ! (f , \"\\\"\")").count() != 2 {
+                return Err("Literal::String arm: expected exactly two write!(f, \"\\\"\") (open/close quote)".into());
+            }
+            out.push_str(&format!(
+                "(* Display for Literal, String arm: opening/closing quote, escaped characters, all others verbatim *)\nDefinition printer_string_quote : N := 34.\nDefinition printer_escape_table : list (N * list N) := [{}].\n",
+                table.join("; ")
+            ));
+        } else if p.starts_with("Literal::Float(") {
+            let t = toks(&arm.body);
+            let ok = t.contains("to_string ()")
+                && t.contains("parse :: < i64 > ()")
+                && t.contains("\"{str}.0\"")
+                && t.contains("\"{str}\"");
+            if !ok {
+                return Err("Literal::Float arm: the `.0` rule was not recognised".into());
+            }
+            // if let Ok(_) = str.parse::<i64>() { "{str}.0" } else { "{str}" }
+            let i0 = t.find("\"{str}.0\"").unwrap();
+            let i1 = t.rfind("\"{str}\"").unwrap();
+            let ie = t.find("else").ok_or("Float arm: no else")?;
+            if !(i0 < ie && ie < i1) {
+                return Err("Literal::Float arm: `.0` is not in the i64-parses branch".into());
+            }
+            out.push_str(&format!(
+                "(* Display for Literal, Float arm: suffix appended when the shortest form parses as an i64 *)\nDefinition printer_float_int_suffix : list N := {}.\n",
+                nlist(".0")
+            ));
+        } else if p == "Literal::Unit" {
+            let s = write_lit(&arm.body).ok_or("Literal::Unit arm is not a write!")?;
+            out.push_str(&format!("Definition printer_unit_text : list N := {}.\n", nlist(&s)));
+        } else if p.starts_with("Literal::Int(") || p.starts_with("Literal::Bool(") {
+            if !toks(&arm.body).starts_with("Display :: fmt") {
+                return Err(format!("{p}: not Display::fmt"));
+            }
+        } else {
+            return Err(format!("unknown Literal variant arm {p}"));
+        }
+    }
+    for need in ["Literal::String(", "Literal::Float(", "Literal::Unit", "Literal::Int(", "Literal::Bool("] {
+        if !variants.iter().any(|v| v.starts_with(need)) {
+            return Err(format!("arm {need} missing"));
+        }
+    }
+    Ok(out)
+}
+
+// ------------------------------------------------------------------------------------------------
+// lexer
+// ------------------------------------------------------------------------------------------------
+fn lexer_string(repo: &Path) -> Result<String, String> {
+    let file = parse(repo, PARSE)?;
+    // the `next` of impl SexpParser
+    let mut body = None;
+    for it in &file.items {
+        if let syn::Item::Impl(im) = it {
+            if toks(&*im.self_ty) == "SexpParser" && im.trait_.is_none() {
+                for ii in &im.items {
+                    if let syn::ImplItem::Fn(f) = ii {
+                        if f.sig.ident == "next" {
+                            body = Some(f.block.clone());
+                        }
+                    }
+                }
+            }
+        }
+    }
+    let body = body.ok_or("SexpParser::next not found")?;
+    let ms = matches_in(&body);
+    // (1) `match c { '(' => Token::Open, ')' => Token::Close, '"' => {..}, _ => {..} }`
+    let top = ms.iter().find(|m| toks(&*m.expr) == "c").ok_or("`match c` not found in next")?;
+    let mut singles = vec![];
+    let mut quote = None;
+    let mut has_other = false;
+    for a in &top.arms {
+        if let Some(c) = char_pat(&a.pat) {
+            let b = toks(&a.body);
+            if b == "Token :: Open" {
+                singles.push(format!("({}, true)", c as u32));
+            } else if b == "Token :: Close" {
+                singles.push(format!("({}, false)", c as u32));
+            } else if b.contains("Token :: String") {
+                quote = Some(c);
+            } else {
+                return Err(format!("unrecognised token arm for {c:?}"));
+            }
+        } else if toks(&a.pat) == "_" && toks(&a.body).contains("Token :: Other") {
+            has_other = true;
+        } else {
+            return Err(format!("unrecognised token pattern {}", toks(&a.pat)));
+        }
+    }
+    let quote = quote.ok_or("no string-token arm")?;
+    if !has_other {
+        return Err("no Token::Other arm".into());
+    }
+    // (2) inside the string arm: `match self.current_char()` with the `!in_escape` guards
+    let mut close = None;
+    let mut intro = None;
+    let mut delims: Option<Vec<char>> = None;
+    for m in ms.iter().filter(|m| toks(&*m.expr) == "self . current_char ()") {
+        for a in &m.arms {
+            let guard = a.guard.as_ref().map(|g| toks(&*g.1));
+            let pat = &a.pat;
+            // Some('x') / Some('a' | 'b')
+            let inner: Vec<char> = match pat {
+                syn::Pat::TupleStruct(ts) if toks(&ts.path) == "Some" && ts.elems.len() == 1 => match &ts.elems[0] {
+                    syn::Pat::Or(o) => o.cases.iter().filter_map(char_pat).collect(),
+                    p => char_pat(p).into_iter().collect(),
+                },
+                _ => vec![],
+            };
+            let b = toks(&a.body);
+            match guard.as_deref() {
+                Some("! in_escape") => {
+                    if inner.len() != 1 {
+                        return Err("guarded string arm without a character".into());
+                    }
+                    if b == "break" {
+                        if close.replace(inner[0]).is_some() {
+                            return Err("two closing-quote arms".into());
+                        }
+                    } else if b == "in_escape = true" {
+                        if intro.replace(inner[0]).is_some() {
+                            return Err("two escape-introducer arms".into());
+                        }
+                    } else {
+                        return Err(format!("unrecognised guarded arm body {b}"));
+                    }
+                }
+                None => {
+                    if !inner.is_empty() && b == "break" {
+                        if delims.replace(inner).is_some() {
+                            return Err("two delimiter arms".into());
+                        }
+                    }
+                }
+                Some(g) => {
+                    if g != "c . is_whitespace ()" && g != "in_comment" {
+                        return Err(format!("unrecognised guard {g}"));
+                    }
+                }
+            }
+        }
+    }
+    let close = close.ok_or("closing-quote arm not found")?;
+    let intro = intro.ok_or("escape-introducer arm not found")?;
+    let delims = delims.ok_or("delimiter arm of Token::Other not found")?;
+    if close != quote {
+        return Err("string opens and closes with different characters".into());
+    }
+    // (3) the unescape table
+    let um = ms
+        .iter()
+        .find(|m| toks(&*m.expr).replace(' ', "") == "(in_escape,c)")
+        .ok_or("`match (in_escape, c)` not found")?;
+    let mut table = vec![];
+    let mut verbatim = false;
+    let mut default_err = false;
+    for a in &um.arms {
+        let syn::Pat::Tuple(t) = &a.pat else { return Err("unescape arm is not a tuple".into()) };
+        if t.elems.len() != 2 || a.guard.is_some() {
+            return Err("unescape arm shape".into());
+        }
+        let flag = toks(&t.elems[0]);
+        match (flag.as_str(), char_pat(&t.elems[1])) {
+            ("false", None) => {
+                if toks(&t.elems[1]) != toks(&a.body) {
+                    return Err("(false, c) arm does not yield c".into());
+                }
+                verbatim = true;
+            }
+            ("true", Some(c)) => {
+                if default_err {
+                    return Err("escape arm after the default arm".into());
+                }
+                let d = char_expr(&a.body).ok_or("unescape arm body is not a char literal")?;
+                table.push(format!("({}, {})", c as u32, d as u32));
+            }
+            ("true", None) => {
+                if !toks(&a.body).contains("return error !") {
+                    return Err("(true, c) default arm is not an error".into());
+                }
+                default_err = true;
+            }
+            _ => return Err("unescape arm flag".into()),
+        }
+    }
+    if !verbatim || !default_err {
+        return Err("unescape match lacks the verbatim or the error arm".into());
+    }
+    let dl: Vec<String> = delims.iter().map(|c| (*c as u32).to_string()).collect();
+    Ok(format!(
+        "(* SexpParser::next: single-character tokens (code, is_open), string quote, escape introducer,\n   the (in_escape, c) table (any other escaped character is an error; unescaped characters are verbatim),\n   the non-whitespace delimiters that end a Token::Other *)\nDefinition lexer_paren_tokens : list (N * bool) := [{}].\nDefinition lexer_string_quote : N := {}.\nDefinition lexer_escape_intro : N := {}.\nDefinition lexer_unescape_table : list (N * N) := [{}].\nDefinition lexer_other_delims : list N := [{}].\n",
+        singles.join("; "),
+        quote as u32,
+        intro as u32,
+        table.join("; "),
+        dl.join("; ")
+    ))
+}
+
+fn lexer_classify(repo: &Path) -> Result<String, String> {
+    let file = parse(repo, PARSE)?;
+    let body = the_fn(&file, "sexp")?;
+    let ms = matches_in(&body);
+    let top = ms.iter().find(|m| toks(&*m.expr) == "token").ok_or("`match token` not found in sexp")?;
+    let arm = top
+        .arms
+        .iter()
+        .find(|a| toks(&a.pat) == "Token :: Other")
+        .ok_or("Token::Other arm not found")?;
+    let syn::Expr::Block(b) = &*arm.body else { return Err("Token::Other arm is not a block".into()) };
+    let last = b.block.stmts.last().ok_or("empty Token::Other arm")?;
+    let syn::Stmt::Expr(mut cur, None) = last.clone() else { return Err("Token::Other arm does not end in an expression".into()) };
+    let result_of = |blk: &syn::Block| -> Result<String, String> {
+        let t = toks(blk).replace(' ', "");
+        let r = if t.contains("Literal::Bool(true)") {
+            "LRBool true"
+        } else if t.contains("Literal::Bool(false)") {
+            "LRBool false"
+        } else if t.contains("f64::NAN") {
+            "LRNaN"
+        } else if t.contains("f64::NEG_INFINITY") {
+            "LRNegInf"
+        } else if t.contains("f64::INFINITY") {
+            "LRInf"
+        } else {
+            return Err(format!("unrecognised literal result {t}"));
+        };
+        Ok(r.to_string())
+    };
+    let mut order = vec![];
+    loop {
+        let syn::Expr::If(i) = &cur else { return Err("classification chain: expected if".into()) };
+        let c = toks(&*i.cond);
+        if let Some(rest) = c.strip_prefix("s == ") {
+            let lit: syn::LitStr = syn::parse_str(rest).map_err(|_| format!("condition {c}"))?;
+            order.push(format!("LCWord {} ({})", nlist(&lit.value()), result_of(&i.then_branch)?));
+        } else if c.contains("s . parse :: < i64 > ()") && c.starts_with("let Ok (") {
+            if !toks(&i.then_branch).replace(' ', "").contains("Literal::Int(") {
+                return Err("i64 branch does not build Literal::Int".into());
+            }
+            order.push("LCInt".to_string());
+        } else if c.contains("s . parse :: < f64 > ()") && c.starts_with("let Ok (") {
+            let t = toks(&i.then_branch).replace(' ', "");
+            // if float.is_finite() { Literal::Float } else { Atom }
+            let ok = t.contains(".is_finite()")
+                && t.find("Literal::Float(").map_or(false, |a| t.find("else").map_or(false, |e| a < e))
+                && t.rfind("Sexp::Atom(").map_or(false, |a| t.find("else").map_or(false, |e| a > e));
+            if !ok {
+                return Err("f64 branch: finite -> Float, else Atom not recognised".into());
+            }
+            order.push("LCFloatFinite".to_string());
+        } else {
+            return Err(format!("unrecognised classification condition {c}"));
+        }
+        match &i.else_branch {
+            Some((_, e)) => match &**e {
+                syn::Expr::If(_) => cur = (**e).clone(),
+                syn::Expr::Block(bl) => {
+                    if !toks(&bl.block).replace(' ', "").contains("Sexp::Atom(") {
+                        return Err("final else is not an Atom".into());
+                    }
+                    order.push("LCAtom".to_string());
+                    break;
+                }
+                _ => return Err("else shape".into()),
+            },
+            None => return Err("classification chain without final else".into()),
+        }
+    }
+    Ok(format!(
+        "(* `sexp`, Token::Other arm: the order in which the text of a token is classified *)\nDefinition lexer_classify_order : list lex_class :=\n  [{}].\n",
+        order.join(";\n   ")
+    ))
+}
+
+// ------------------------------------------------------------------------------------------------
+// keyword tables
+// ------------------------------------------------------------------------------------------------
+fn peel(e: &syn::Expr) -> &syn::Expr {
+    match e {
+        syn::Expr::Block(b) if b.block.stmts.len() == 1 => match &b.block.stmts[0] {
+            syn::Stmt::Expr(inner, None) => peel(inner),
+            _ => e,
+        },
+        syn::Expr::Paren(p) => peel(&p.expr),
+        _ => e,
+    }
+}
+
+/// arity patterns of `match tail { [a, b] => .., [a, rest @ ..] => .., _ => return error!(..) }`
+fn arities(m: &syn::ExprMatch) -> Result<String, String> {
+    let mut v = vec![];
+    for a in &m.arms {
+        match &a.pat {
+            syn::Pat::Slice(s) => {
+                let mut n = 0usize;
+                let mut open = false;
+                for (k, el) in s.elems.iter().enumerate() {
+                    let t = toks(el);
+                    if t == ".." || t.ends_with("@ ..") {
+                        if k + 1 != s.elems.len() {
+                            return Err("rest pattern not last".into());
+                        }
+                        open = true;
+                    } else {
+                        n += 1;
+                    }
+                }
+                v.push(if open { format!("AAtLeast {n}") } else { format!("AExact {n}") });
+            }
+            syn::Pat::Wild(_) => {
+                if !toks(&a.body).contains("return error !") {
+                    return Err("`_` arm of `match tail` is not an error".into());
+                }
+            }
+            p => return Err(format!("unrecognised tail pattern {}", toks(p))),
+        }
+    }
+    Ok(format!("Some [{}]", v.join("; ")))
+}
+
+fn heads(repo: &Path, func: &str, def: &str, fallbacks: &[(&str, &str)]) -> Result<String, String> {
+    let file = parse(repo, PARSE)?;
+    let body = the_fn(&file, func)?;
+    let ms = matches_in(&body);
+    let cands: Vec<&syn::ExprMatch> = ms.iter().filter(|m| toks(&*m.expr) == "head . as_str ()").collect();
+    if cands.len() != 1 {
+        return Err(format!("{func}: expected one `match head.as_str()`, found {}", cands.len()));
+    }
+    let m = cands[0];
+    let mut rows = vec![];
+    let mut fallback = None;
+    for (k, a) in m.arms.iter().enumerate() {
+        if a.guard.is_some() {
+            return Err("guard on a keyword arm".into());
+        }
+        let names: Vec<String> = match &a.pat {
+            syn::Pat::Lit(l) => match &l.lit {
+                syn::Lit::Str(s) => vec![s.value()],
+                _ => return Err("non-string keyword".into()),
+            },
+            syn::Pat::Or(o) => {
+                let mut v = vec![];
+                for c in &o.cases {
+                    match c {
+                        syn::Pat::Lit(l) => match &l.lit {
+                            syn::Lit::Str(s) => v.push(s.value()),
+                            _ => return Err("non-string keyword".into()),
+                        },
+                        _ => return Err("non-literal in or-pattern".into()),
+                    }
+                }
+                v
+            }
+            syn::Pat::Wild(_) => {
+                if k + 1 != m.arms.len() {
+                    return Err("`_` arm is not last".into());
+                }
+                let b = toks(&a.body);
+                let mut hit = None;
+                for (needle, name) in fallbacks {
+                    if b.contains(needle) {
+                        hit = Some(name.to_string());
+                        break;
+                    }
+                }
+                fallback = Some(hit.ok_or(format!("{func}: fallback arm not recognised: {b}"))?);
+                continue;
+            }
+            p => return Err(format!("unrecognised keyword pattern {}", toks(p))),
+        };
+        let ar = match peel(&a.body) {
+            syn::Expr::Match(tm) if toks(&*tm.expr) == "tail" => arities(tm)?,
+            _ => "None".to_string(),
+        };
+        for n in names {
+            rows.push(format!("({}, {}) (* {} *)", nlist(&n), ar, comment_safe(&n)));
+        }
+    }
+    let fallback = fallback.ok_or(format!("{func}: no fallback arm"))?;
+    Ok(format!(
+        "(* Parser::{func}: `match head.as_str()` — heads in source order with the tail lengths accepted by the\n   arm's `match tail` (None: the arm is not a plain `match tail`), and what the `_` arm does *)\nDefinition {def}_heads : list (list N * option (list arity)) :=\n  [{}].\nDefinition {def}_fallback : kw_fallback := {}.\n",
+        rows.join(";\n   "),
+        fallback
+    ))
+}
+
+pub fn generate(repo: &std::path::Path) -> (String, Vec<String>) {
+    let mut text = String::from(
+        "(* GENERATED by /verif/translator (x_syntax.rs) from egglog-ast/src/generic_ast_helpers.rs and\n   src/ast/parse.rs — do not edit. Text = code points (N). *)\nFrom Coq Require Import List NArith.\nImport ListNotations.\nLocal Open Scope N_scope.\n\nInductive lex_res := LRBool (b : bool) | LRNaN | LRInf | LRNegInf.\nInductive lex_class := LCWord (w : list N) (r : lex_res) | LCInt | LCFloatFinite | LCAtom.\nInductive arity := AExact (n : nat) | AAtLeast (n : nat).\nInductive kw_fallback := FBAction | FBExpr | FBError.\n\n",
+    );
+    let mut report = vec![];
+    let items: Vec<(&str, &str, Result<String, String>)> = vec![
+        ("printer_escape", HELPERS, printer_escape(repo)),
+        ("lexer_string", PARSE, lexer_string(repo)),
+        ("lexer_classify", PARSE, lexer_classify(repo)),
+        (
+            "command_heads",
+            PARSE,
+            heads(repo, "parse_command", "command", &[("parse_action", "FBAction")]),
+        ),
+        ("action_heads", PARSE, heads(repo, "parse_action", "action", &[("parse_expr", "FBExpr")])),
+        (
+            "schedule_heads",
+            PARSE,
+            heads(repo, "parse_schedule", "schedule", &[("return error !", "FBError")]),
+        ),
+        ("fact_heads", PARSE, heads(repo, "parse_fact", "fact", &[("parse_expr", "FBExpr")])),
+    ];
+    for (name, file, r) in items {
+        match r {
+            Ok(t) => {
+                text.push_str(&t);
+                text.push('\n');
+                report.push(format!("{{\"item\":\"SyntaxFacts.{name}\",\"file\":\"{file}\",\"ok\":true}}"));
+            }
+            Err(e) => {
+                text.push_str(&format!("(* {name}: NOT REGENERATED *)\n\n"));
+                let e = e.replace('\\', "\\\\").replace('"', "\\\"").replace('\n', " ");
+                report.push(format!(
+                    "{{\"item\":\"SyntaxFacts.{name}\",\"file\":\"{file}\",\"ok\":false,\"error\":\"{e}\"}}"
+                ));
+            }
+        }
+    }
+    (text, report)
 }
